@@ -5,6 +5,9 @@
 //@typemap /Vec<Vec<F>>/ => Vec<Vec<Fr>>
 //@typemap /Vec<F>/ => Vec<Fr>
 //@typemap /&\[F\]/ => &[Fr]
+//@typemap /<T: Copy>/ => 
+//@typemap /Vec<Vec<T>>/ => Vec<Vec<Fr>>
+//@typemap /&\[T\]/ => &[Fr]
 //@struct file=poly-commit/src/utils.rs name=Matrix
 //@stub from=hyrax.rs id=utils.inner_product
 // row-major matrix: entries[r][c]
@@ -22,4 +25,91 @@ impl Matrix {
 //@closure |row| => |row: usize| -> (rv: Vec<Fr>) requires row < n, entry_list@.len() == n * m, n * m <= usize::MAX ensures rv@.len() == m, forall|c: int| 0 <= c < m ==> (#[trigger] rv@[c]) == entry_list@[m * row + c]
 //@closure |col| => |col: usize| -> (e: Fr) requires col < m, row < n, entry_list@.len() == n * m, n * m <= usize::MAX ensures e == entry_list@[m * row + col] ;; proof { assert(m * row + col < n * m && m * row <= n * m) by (nonlinear_arith) requires row < n, col < m; }
 //@end
+
+//@fn id=utils.Matrix.new_from_rows file=poly-commit/src/utils.rs scope="impl<F: Field> Matrix<F>" name=new_from_rows props=C08
+    pub fn new_from_rows(row_list: Vec<Vec<Fr>>) -> (r: Matrix)
+    requires
+        row_list@.len() > 0,     // (an empty list indexes row 0 and panics)
+    ensures
+        r.n == row_list@.len(), r.m == row_list@[0]@.len(), r.entries@ == row_list@, mat_wf(&r),   // name=utils.Matrix.new_from_rows.rows_kept_and_rectangular props=C08
+//@body
+//@loop 1 kw=for name=it
+            invariant m == row_list@[0]@.len(), row_list@.len() > 0,
+                forall|i: int| 1 <= i < 1 + it.index@ ==> (#[trigger] row_list@[i])@.len() == m,
+//@end
+
+//@fn id=utils.Matrix.rows file=poly-commit/src/utils.rs scope="impl<F: Field> Matrix<F>" name=rows props=C08
+    pub fn rows(&self) -> (r: Vec<Vec<Fr>>)
+    ensures
+        r@ == self.entries@,   // name=utils.Matrix.rows.returns_entries props=C08
+//@body
+//@rw * /self\.entries\.clone\(\)/ => clone_rows(&self.entries)
+//@end
+
+//@fn id=utils.Matrix.cols file=poly-commit/src/utils.rs scope="impl<F: Field> Matrix<F>" name=cols props=C08,C13
+    pub fn cols(&self) -> (r: Vec<Vec<Fr>>)
+    requires
+        mat_wf(self),
+    ensures
+        r@.len() == self.m,
+        forall|c: int| 0 <= c < self.m ==> (#[trigger] r@[c])@.len() == self.n,
+        forall|c: int, rw: int| 0 <= c < self.m && 0 <= rw < self.n ==> #[trigger] r@[c]@[rw] == self.entries@[rw]@[c],   // name=utils.Matrix.cols.transpose props=C08,C13
+//@body
+//@closure |col| => |col: usize| -> (cv: Vec<Fr>) requires col < self.m, mat_wf(self) ensures cv@.len() == self.n, forall|rw: int| 0 <= rw < self.n ==> (#[trigger] cv@[rw]) == self.entries@[rw]@[col as int]
+//@closure |row| => |row: usize| -> (e: Fr) requires row < self.n, col < self.m, mat_wf(self) ensures e == self.entries@[row as int]@[col as int]
+//@end
+
+//@fn id=utils.Matrix.row_mul file=poly-commit/src/utils.rs scope="impl<F: Field> Matrix<F>" name=row_mul props=C08,C13
+    pub fn row_mul(&self, v: &[Fr]) -> (r: Vec<Fr>)
+    requires
+        mat_wf(self),
+    ensures
+        v@.len() == self.n,      // (otherwise the assertion panics)
+        r@.len() == self.m,
+        // (v * M)[c] = <v, column c>
+        forall|c: int| 0 <= c < self.m ==> (#[trigger] r@[c])@ == ip(fviews(v@), Seq::new(self.n as nat, |rw: int| self.entries@[rw]@[c]@)),   // name=utils.Matrix.row_mul.linear_combination_of_rows props=C08,C13
+//@body
+//@closure |col| => |col: usize| -> (e: Fr) requires col < self.m, mat_wf(self), v@.len() == self.n ensures e@ == ip(fviews(v@), Seq::new(self.n as nat, |rw: int| self.entries@[rw]@[col as int]@)) ;; proof { assert forall|t: Seq<Fr>| t.len() == self.n && (forall|rw: int| 0 <= rw < self.n ==> (#[trigger] t[rw]) == self.entries@[rw]@[col as int]) implies #[trigger] fviews(t) == Seq::new(self.n as nat, |rw: int| self.entries@[rw]@[col as int]@) by { assert(fviews(t) =~= Seq::new(self.n as nat, |rw: int| self.entries@[rw]@[col as int]@)); } }
+//@closure |row| => |row: usize| -> (e: Fr) requires row < self.n, col < self.m, mat_wf(self) ensures e == self.entries@[row as int]@[col as int]
+//@end
 }
+// derived Clone on Vec<Vec<F>>
+#[verifier::external_body] pub fn clone_rows(v: &Vec<Vec<Fr>>) -> (r: Vec<Vec<Fr>>) ensures r@ == v@ { unimplemented!() }
+
+//@fn id=utils.scalar_by_vector file=poly-commit/src/utils.rs scope=top name=scalar_by_vector props=C08
+pub fn scalar_by_vector(s: Fr, v: &[Fr]) -> (r: Vec<Fr>)
+    ensures
+        r@.len() == v@.len(),
+        forall|i: int| 0 <= i < v@.len() ==> (#[trigger] r@[i])@ == f_mul(v@[i]@, s@),   // name=utils.scalar_by_vector.pointwise props=C08
+//@body
+//@closure |x| => |x: &Fr| -> (y: Fr) ensures y@ == f_mul(x@, s@)
+//@end
+
+//@fn id=utils.vector_sum file=poly-commit/src/utils.rs scope=top name=vector_sum props=C08
+pub fn vector_sum(v1: &[Fr], v2: &[Fr]) -> (r: Vec<Fr>)
+    ensures
+        r@.len() == min(v1@.len(), v2@.len()),
+        forall|i: int| 0 <= i < r@.len() ==> (#[trigger] r@[i])@ == f_add(v1@[i]@, v2@[i]@),   // name=utils.vector_sum.pointwise props=C08
+//@body
+//@rw * /\.zip\(v2\)/ => .zip(v2.iter())
+//@closure |(li, ri)| => |q: (&Fr, &Fr)| -> (y: Fr) ensures y@ == f_add(q.0@, q.1@) ;; let (li, ri) = q;
+//@end
+
+//@fn id=hyrax.flat_to_matrix_column_major file=poly-commit/src/hyrax/utils.rs scope=top name=flat_to_matrix_column_major props=C08
+pub fn flat_to_matrix_column_major(flat: &[Fr], n: usize, m: usize) -> (res: Vec<Vec<Fr>>)
+    requires
+        n * m <= usize::MAX,
+    ensures
+        flat@.len() == n * m,
+        res@.len() == n,
+        forall|row: int| 0 <= row < n ==> (#[trigger] res@[row])@.len() == m,
+        forall|row: int, col: int| 0 <= row < n && 0 <= col < m ==> #[trigger] res@[row]@[col] == flat@[col * n + row],   // name=hyrax.flat_to_matrix_column_major.layout props=C08
+//@body
+//@rw * /let mut res = Vec::new\(\);/ => let mut res: Vec<Vec<Fr>> = Vec::new();
+//@rw * /res\.push\(\(0\.\.m\)\.map\((.*)\)\.collect\(\)\)/ => { let rv__: Vec<Fr> = (0..m).map(\1).collect(); res.push(rv__) }
+//@closure |col| => |col: usize| -> (e: Fr) requires col < m, row < n, flat@.len() == n * m, n * m <= usize::MAX ensures e == flat@[col * n + row] ;; proof { assert(col * n + row < n * m && col * n <= n * m) by (nonlinear_arith) requires row < n, col < m; }
+//@loop 1 kw=for name=it
+        invariant flat@.len() == n * m, n * m <= usize::MAX, res@.len() == it.index@, it.index@ <= n,
+            forall|rw: int| 0 <= rw < it.index@ ==> (#[trigger] res@[rw])@.len() == m,
+            forall|rw: int, col: int| 0 <= rw < it.index@ && 0 <= col < m ==> #[trigger] res@[rw]@[col] == flat@[col * n + rw],
+//@end
